@@ -729,11 +729,12 @@ def run_c06(tier, budget, rnd, res, script, post):
         scale = float(sum(abs(x) for x in v)) + 1.0
         post.append((len(script) - 1, "float:C06 shapley", r, 1e-9 * scale, {"n": n, "player": i, "values": [rs(x) for x in v]}))
 
+    # LAST, and from the largest player count down: tables that grow with n are then extended by many entries in one call
+    every_n_shapley(res, rnd, range(16, 6, -1) if tier == "quick" else range(18, 6, -1))
+
 
 # ------------------------------------------------------------------------------------------------
 # C07 (gap functions)
-    # LAST, and from the largest player count down: tables that grow with n are then extended by many entries in one call
-    every_n_shapley(res, rnd, range(16, 6, -1) if tier == "quick" else range(18, 6, -1))
 
 
 def run_c07(tier, budget, rnd, res, script, post):
